@@ -85,12 +85,10 @@ Lemma item_step_blk sp st copy ext dr n req body e :
                         end)) (b_body top))
     end.
 Proof. reflexivity. Qed.
-Lemma item_step_if sp st copy ext dr body :
-  item_step sp st copy ext dr (Wrap WIf body)
-  = tblock sp body (cat_map (item_step sp st copy ext dr) body).
-Proof. reflexivity. Qed.
-Lemma item_step_for sp st copy ext dr body :
-  item_step sp st copy ext dr (Wrap WFor body) = tblock sp body (ext dr body).
+Lemma item_step_wrap sp st copy ext dr k body :
+  item_step sp st copy ext dr (Wrap k body)
+  = tblock sp body (if wrap_scoped k then ext dr body
+                    else cat_map (item_step sp st copy ext dr) body).
 Proof. reflexivity. Qed.
 
 (** Blank-block suppression keeps errors and only ever erases text. *)
@@ -616,12 +614,12 @@ Section Sound.
         exists f. subst r. split; [|assumption]. destruct sup; exact Hf.
     - congruence.
     - exists 0. subst. split; [reflexivity|discriminate].
-    - simpl. destruct k.
+    - simpl. destruct (wrap_scoped k).
+      + apply (tblock_ok body _ r (fun f => spec_items f sp ch sup body) H Hr). intro N.
+        exact (He dr sup body _ Hd eq_refl N).
       + apply (tblock_ok body _ r (fun f => spec_items f sp ch sup body) H Hr). intro N.
         apply (cat_ok (item_step sp st copy ext dr) sup body); [|reflexivity|exact N].
         eapply Forall_impl; [|exact IHb]. intros it Hit. exact (Hit dr sup Hd).
-      + apply (tblock_ok body _ r (fun f => spec_items f sp ch sup body) H Hr). intro N.
-        exact (He dr sup body _ Hd eq_refl N).
   Qed.
 
   Lemma R_sound_step df sf :
@@ -707,12 +705,12 @@ Section Complete.
           destruct sup; exact Ha.
       - assumption.
       - assumption.
-      - destruct k.
-        + rewrite item_step_if. apply (tblock_eq _ _ _ _ Ha Hra). intro N.
-          rewrite <- R_unfold.
+      - rewrite item_step_wrap. destruct (wrap_scoped k).
+        + cbn [extf]. apply (tblock_eq _ _ _ _ Ha Hra). intro N.
           apply (IH f0) with (sup := sup); try lia; [|reflexivity|assumption].
           eapply drop_ok2_weaken; [|eassumption]. lia.
-        + rewrite item_step_for. cbn [extf]. apply (tblock_eq _ _ _ _ Ha Hra). intro N.
+        + apply (tblock_eq _ _ _ _ Ha Hra). intro N.
+          rewrite <- R_unfold.
           apply (IH f0) with (sup := sup); try lia; [|reflexivity|assumption].
           eapply drop_ok2_weaken; [|eassumption]. lia. }
     assert (forall rb, spec_items f0 sp ch sup rest = rb -> rb <> OutOfFuel ->
